@@ -79,6 +79,8 @@ def run(F, rep, tier):
     # "impossible calendar dates evaluate to null": the calendar tables and the validity gate of C15
     c15.calendar_tables_rule(F, rep)
     c15.date_validity_rule(F, rep)
+    # a literal with a named zone (or none) denotes the written wall clock reading in that zone: the zone's offset is resolved for that reading as local time
+    c15.wall_clock_rule(F, rep)
     duration_literal_rule(F, rep)
     duration_text_rule(F, rep)
 
